@@ -34,6 +34,13 @@ def check(run):
         all_failed += f_i
     if D.canary(run, "fitting/likelihood.py", "CCLikelihood.__init__", (lambda: C.init_contract("CCLikelihood"))) is False:
         raise RuntimeError("canary verified: engine vacuous on CCLikelihood.__init__")
+    # frame: no method of the likelihood module leaves numpy's floating-point error handling changed (the special-value semantics the contracts rest on -- inf / NaN
+    # instead of FloatingPointError -- must hold for a class evaluated after any other one in the same process)
+    from pyvc import frames
+
+    def f6_only(fnode):
+        return [o for o in frames.obligations(fnode) if "floating-point error state" in o[0]]
+    f6failed = D.structural_generic(run, ["fitting/likelihood.py"], f6_only, "pyvc.frames (AST analysis)", "F6: numpy's error state is restored on every path")
     can = D.canary(run, "fitting/likelihood.py", "GaussLikelihood.negloglike", lambda: C.negloglike_contract("GaussLikelihood", "array"))
     if can is False:
         raise RuntimeError("canary verified: engine vacuous on GaussLikelihood.negloglike")
@@ -44,6 +51,8 @@ def check(run):
     for f in r["failures"][:2]:
         run.violation("c09:%s:%s" % (f["cls"], f["case"].split(" at ")[0]), f["error"] + " pred=%s y=%s yerr=%s" % (f.get("pred"), f.get("y"), f.get("yerr")),
                       {"harness": "rt_c09.py", "payload": {"seed": run.seed, "reps": 6, "sizes": [1, 2, 5]}})
+    if f6failed and not r["failures"]:
+        D.report_structural(run, f6failed, "frames", "pyvc/frames.py")
     if all_failed and not r["failures"]:
         from checks.C14 import report_unproved
         report_unproved(run, all_failed, False, all_failed[0].fn)
